@@ -95,6 +95,11 @@ def _vhd_spec(draw, tier="quick", layer=0, kind=None):
         dyn_off = 512 + gap1
         base_sec = (dyn_off + 1024) // 512 + draw(st.sampled_from([0, 0, 1]))
         tab_off = (base_sec + (max(slots, default=-1) + 1) * (span + pad)) * 512 + gap2
+    if not hi and draw(st.integers(0, 5)) == 0:
+        # the dynamic header and the BAT (far) beyond 4 GiB, found through their 64-bit offsets; the data blocks stay in front
+        dyn_off = draw(st.sampled_from([0xFFFFFE00, 1 << 32, (1 << 32) + 512, 1 << 40]))
+        tab_off = dyn_off + 1024 + gap2
+        base_sec = 1 + draw(st.sampled_from([0, 0, 1, 7]))
     return {
         "kind": "dynamic", "size": size, "legacy_footer": legacy, "block_size": bs, "dyn_offset": dyn_off, "table_offset": tab_off,
         "alloc": [[b, base_sec + s * (span + pad)] for b, s in zip(alloc_l, slots)], "layer": layer,
